@@ -13,6 +13,7 @@ parts of the same type info"; `C08_mk_sem` shows every constructed object satisf
 `C08_history` that every operation preserves it.
 -/
 import PybtexModel.Lemmas.RichText
+import PybtexModel.Lemmas.RichTextU
 import PybtexModel.Gen.RichText
 
 namespace Pybtex.Props
@@ -22,6 +23,12 @@ open Pybtex Pybtex.RT
 white-space pattern `String.split()` uses is the one the model implements -/
 theorem C08_tables :
     (∀ x ∈ Gen.terminators, x.length = 1) ∧ Gen.whitespacePattern = "\\s+" := by decide
+
+/-- the compiled patterns are the ones the model implements, with the flags the model assumes: `\s` is
+Unicode white space (flags = `re.UNICODE` = 32 only; `re.ASCII` would narrow it), `delimiter_re` is
+`([\s\-])` with its capturing group -/
+theorem C08_tables_flags :
+    Gen.whitespaceFlags = 32 ∧ Gen.delimiterPattern = "([\\s\\-])" ∧ Gen.delimiterFlags = 32 := by decide
 
 /-- **Construction.** The constructor (`BaseMultipartText.__init__`: drop the empty parts, unpack
 `Text` children, merge similar neighbours) does not change the string of pairs; hence the object
@@ -315,5 +322,262 @@ theorem C08_history_nonvacuous :
         (fun r => match r with | .ok x => some (toStr x) | .error _ => none)
       = [some "AB CD,E".toList, some "B CD,".toList, none, some "B CD,x".toList,
          some "B CD".toList, some [], some []] := by decide +kernel
+
+
+/-! ## Second part: the interpreter's Unicode case mapping and letters, `add_period(period)`, completeness of
+`startswith` / `endswith` / `in`, histories over all operations -/
+
+/-- the ASCII fragment of the interpreter's tables is the ASCII case mapping of `Model/Basic.lean`
+(kernel evaluation over the 128 code points) -/
+theorem C08_unicode_ascii_bridge (c : Char) (h : c.toNat < 128) :
+    uniCase.up c = [upperC c] ∧ uniCase.lo c = [lowerC c] ∧ uniCase.alpha c = isAlpha c := by
+  have key : (List.range 128).all (fun n =>
+      uniCase.up (Char.ofNat n) == [upperC (Char.ofNat n)] && uniCase.lo (Char.ofNat n) == [lowerC (Char.ofNat n)] &&
+      uniCase.alpha (Char.ofNat n) == isAlpha (Char.ofNat n)) = true := by decide +kernel
+  simp only [List.all_eq_true, List.mem_range, Bool.and_eq_true, beq_iff_eq] at key
+  have := key c.toNat h
+  rw [Char.ofNat_toNat] at this
+  exact ⟨this.1.1, this.1.2, this.2⟩
+
+/-- what the regenerated tables say about the characters the generators use as witnesses: é É ǅ Cyrillic map one to
+one; ß, ŉ, İ have longer images; `lower` leaves ß alone (`casefold` would not); 毛 is a letter without case -/
+theorem C08_unicode_tables :
+    uniCase.up 'é' = ['É'] ∧ uniCase.lo 'É' = ['é'] ∧ uniCase.up 'ǅ' = ['Ǆ'] ∧ uniCase.lo 'ǅ' = ['ǆ'] ∧
+    uniCase.up 'ж' = ['Ж'] ∧ uniCase.up 'ß' = ['S', 'S'] ∧ uniCase.lo 'ß' = ['ß'] ∧
+    uniCase.up 'ŉ' = ['ʼ', 'N'] ∧ uniCase.lo 'İ' = ['i', Char.ofNat 0x307] ∧
+    uniCase.alpha 'é' = true ∧ uniCase.alpha '毛' = true ∧ uniCase.up '毛' = ['毛'] ∧ uniCase.alpha '€' = false := by
+  decide +kernel
+
+/-- **Case, for any case mapping** (in particular the interpreter's Unicode tables `uniCase`, where the image of a
+character may be longer than one character: ß → SS).  `upper()` / `lower()` replace every character that is not under
+`Protected` by its image, every character of the image carrying the markup of the character it came from; symbols,
+protected characters and the class are kept; the result is an object (normal form).  They commute with
+concatenation as objects.  For the ASCII mapping these are the `upperT` / `lowerT` of `C08_case`. -/
+theorem C08_case_full (cs : CaseSys) (t : RT) :
+    abs (upperG cs t) = Abs.caseMapFull cs.up (abs t) ∧ abs (lowerG cs t) = Abs.caseMapFull cs.lo (abs t) ∧
+    (Normal t = true → Normal (upperG cs t) = true ∧ Normal (lowerG cs t) = true) ∧
+    (Normal t = true → ∀ u, Normal u = true →
+      eq (upperG cs (add t u)) (add (upperG cs t) (upperG cs u)) = true ∧
+      eq (lowerG cs (add t u)) (add (lowerG cs t) (lowerG cs u)) = true) := by
+  refine ⟨abs_upperG cs t, abs_lowerG cs t, fun hn => ⟨normal_caseMap _ _ hn, normal_caseMap _ _ hn⟩, ?_⟩
+  intro hn u hu
+  have h1 : abs (upperG cs (add t u)) = abs (add (upperG cs t) (upperG cs u)) := by
+    rw [abs_upperG, abs_add, abs_add, abs_upperG, abs_upperG, abs_caseMapFull_add]
+  have h2 : abs (lowerG cs (add t u)) = abs (add (lowerG cs t) (lowerG cs u)) := by
+    rw [abs_lowerG, abs_add, abs_add, abs_lowerG, abs_lowerG, abs_caseMapFull_add]
+  constructor
+  · rw [eq_iff]
+    exact abs_inj _ _ (normal_caseMap _ _ (normal_add _ _ hn hu))
+      (normal_add _ _ (normal_caseMap _ _ hn) (normal_caseMap _ _ hu)) h1
+  · rw [eq_iff]
+    exact abs_inj _ _ (normal_caseMap _ _ (normal_add _ _ hn hu))
+      (normal_add _ _ (normal_caseMap _ _ hn) (normal_caseMap _ _ hu)) h2
+
+theorem C08_case_full_nonvacuous :
+    abs (upperG uniCase (build (.node .text [.str "Straße é".toList, .node .prot [.str "ß".toList], .sym "nbsp".toList])))
+      = ⟨.multi .text, [(.ch 'S', []), (.ch 'T', []), (.ch 'R', []), (.ch 'A', []), (.ch 'S', []), (.ch 'S', []),
+          (.ch 'E', []), (.ch ' ', []), (.ch 'É', []), (.ch 'ß', [.prot]), (.sym "nbsp".toList, [])]⟩ ∧
+    toStr (lowerG uniCase (.str "Straße É".toList)) = "straße é".toList := by decide +kernel
+
+/-- **Case and slicing** (`slice-then-upper = upper-then-slice`) hold – as objects – on the texts where the case
+mapping keeps the length: every unprotected character has a one-character upper- and lower-case image
+(`Flat.lenPreserving`, decidable; all of ASCII, é, Cyrillic, ǅ … satisfy it, ß ŉ ǰ İ ﬁ … do not).  There the mapping is
+pointwise and the length is kept. -/
+theorem C08_case_slice_partial (cs : CaseSys) (t : RT) (hn : Normal t = true)
+    (hd : Flat.lenPreserving cs (sem [] t) = true) :
+    (∀ i j, eq (upperG cs (getSlice t i j)) (getSlice (upperG cs t) i j) = true ∧
+            eq (lowerG cs (getSlice t i j)) (getSlice (lowerG cs t) i j) = true) ∧
+    len (upperG cs t) = len t ∧ len (lowerG cs t) = len t := by
+  obtain ⟨hu, hl⟩ := single_of_lenPreserving cs _ hd
+  refine ⟨fun i j => ⟨?_, ?_⟩, ?_, ?_⟩
+  · have h1 : abs (upperG cs (getSlice t i j)) = abs (getSlice (upperG cs t) i j) := by
+      rw [abs_upperG, abs_getSlice, abs_getSlice, abs_upperG, abs_caseMapFull_slice _ _ _ _ hu]
+    rw [eq_iff]
+    exact abs_inj _ _ (normal_caseMap _ _ (normal_getSlice t hn i j)) (normal_getSlice _ (normal_caseMap _ _ hn) i j) h1
+  · have h1 : abs (lowerG cs (getSlice t i j)) = abs (getSlice (lowerG cs t) i j) := by
+      rw [abs_lowerG, abs_getSlice, abs_getSlice, abs_lowerG, abs_caseMapFull_slice _ _ _ _ hl]
+    rw [eq_iff]
+    exact abs_inj _ _ (normal_caseMap _ _ (normal_getSlice t hn i j)) (normal_getSlice _ (normal_caseMap _ _ hn) i j) h1
+  · rw [← sem_length (upperG cs t) [], ← sem_length t []]
+    have := congrArg Abs.atoms (abs_upperG cs t)
+    simp only [abs_atoms, Abs.caseMapFull] at this
+    rw [this, mapCaseFull_length_single _ _ hu]
+  · rw [← sem_length (lowerG cs t) [], ← sem_length t []]
+    have := congrArg Abs.atoms (abs_lowerG cs t)
+    simp only [abs_atoms, Abs.caseMapFull] at this
+    rw [this, mapCaseFull_length_single _ _ hl]
+
+theorem C08_case_slice_partial_nonvacuous :
+    Normal (build (.node .text [.str "éa ".toList, .node (.tag "em".toList) [.str "Жǅ".toList]])) = true ∧
+    Flat.lenPreserving uniCase (sem [] (build (.node .text [.str "éa ".toList, .node (.tag "em".toList) [.str "Жǅ".toList]]))) = true ∧
+    toStr (upperG uniCase (build (.node .text [.str "éa ".toList, .node (.tag "em".toList) [.str "Жǅ".toList]]))) = "ÉA ЖǄ".toList := by
+  decide +kernel
+
+/-- **Limit: where the image of a character is longer than the character the laws that relate case and
+slicing fail – exactly as they fail for Python strings** (`'ß'.upper()[:1] = 'S'`, `'ß'[:1].upper() = 'SS'`): the
+length grows, slice-then-upper differs from upper-then-slice.  `lower()` keeps ß (`casefold()` would give `ss`). -/
+theorem C08_case_slice_neg :
+    Flat.lenPreserving uniCase (sem [] (.str "ß".toList)) = false ∧
+    len (upperG uniCase (.str "ß".toList)) = 2 ∧
+    toStr (getSlice (upperG uniCase (.str "ß".toList)) none (some 1)) = "S".toList ∧
+    toStr (upperG uniCase (getSlice (.str "ß".toList) none (some 1))) = "SS".toList ∧
+    eq (upperG uniCase (getSlice (.str "ß".toList) none (some 1))) (getSlice (upperG uniCase (.str "ß".toList)) none (some 1)) = false ∧
+    toStr (lowerG uniCase (.str "ß".toList)) = "ß".toList := by decide +kernel
+
+/-- **capfirst / capitalize, for any case mapping**: `self[:1].upper() + self[1:]` and
+`self[:1].upper() + self[1:].lower()` on the string of pairs; `Protected` is left alone; the results are objects. -/
+theorem C08_capfirst_capitalize_full (cs : CaseSys) (t : RT) :
+    abs (capfirstG cs t) = Abs.capfirstG cs (abs t) ∧ abs (capitalizeG cs t) = Abs.capitalizeG cs (abs t) ∧
+    (Normal t = true → Normal (capfirstG cs t) = true ∧ Normal (capitalizeG cs t) = true) :=
+  ⟨abs_capfirstG cs t, abs_capitalizeG cs t, fun h => ⟨normal_capfirstG cs t h, normal_capitalizeG cs t h⟩⟩
+
+theorem C08_capfirst_capitalize_full_nonvacuous :
+    toStr (capitalizeG uniCase (build (.node (.tag "em".toList) [.str "ßÉ".toList, .node .prot [.str "É".toList]]))) = "SSéÉ".toList ∧
+    toStr (capfirstG uniCase (.str "éÉ".toList)) = "ÉÉ".toList := by decide +kernel
+
+/-- **isalpha, for any letter test** (in particular the interpreter's `str.isalpha` table): true iff the text is
+non-empty and every pair is a letter (a symbol never is). -/
+theorem C08_isalpha_full (alpha : Char → Bool) (t : RT) (h : Normal t = true) (ctx : List Markup) :
+    isAlphaG alpha t = Flat.isAlphaG alpha (sem ctx t) := isAlphaG_spec alpha t ctx h
+
+theorem C08_isalpha_full_nonvacuous :
+    isAlphaG uniCase.alpha (build (.node .text [.str "éß".toList, .node (.tag "em".toList) [.str "毛Ж".toList]])) = true ∧
+    isAlphaG uniCase.alpha (build (.node .text [.str "é€".toList])) = false ∧
+    isAlphaT (.str "é".toList) = false := by decide +kernel
+
+/-- **add_period(period)** for ANY period (a `str`, a `Text`, a `Tag` …): it is appended – inside the outermost
+markup of the receiver, with its own markup – exactly when the text is non-empty and its last pair is not one of
+the terminating characters; otherwise the text is returned as it is. -/
+theorem C08_add_period_any (period t : RT) (h : Normal t = true) :
+    abs (addPeriod Gen.terminators period t) = Abs.addPeriod Gen.terminators (abs period) (abs t) ∧
+    (Normal period = true → Normal (addPeriod Gen.terminators period t) = true) :=
+  ⟨abs_addPeriod Gen.terminators C08_tables.1 period t h, fun hp => normal_addPeriod _ _ t h hp⟩
+
+theorem C08_add_period_any_nonvacuous :
+    abs (addPeriod Gen.terminators (build (.node (.tag "b".toList) [.str "!".toList]))
+          (build (.node (.tag "em".toList) [.str "Ok".toList])))
+      = ⟨.multi (.tag "em".toList), [(.ch 'O', [.tag "em".toList]), (.ch 'k', [.tag "em".toList]),
+          (.ch '!', [.tag "em".toList, .tag "b".toList])]⟩ ∧
+    toStr (addPeriod Gen.terminators (.str "!".toList) (.str "Ok?".toList)) = "Ok?".toList := by decide +kernel
+
+/-- **Equality with a value that is not a rich text** (`'a'`, `None`, `5` …) is `False`: `==` is total. -/
+theorem C08_eq_other (t : RT) : eqVal t .other = false ∧ ∀ u, eqVal t (.text u) = eq t u := ⟨rfl, fun _ => rfl⟩
+
+/-- **startswith / endswith / in are exact for the part-wise reading, and sound for the string operation.**
+On objects (normal forms) the answer of the code is true EXACTLY when some alternative is spelled at the beginning /
+at the end / somewhere *inside one and the same markup* (completeness added to `C08_prefix_suffix_contains`; the
+empty-string corner cases are the ones of `Abs.startsWith` / `Abs.contains`).  A positive answer is always a match of
+the Python string operation on the characters (`*Full`).  The converse fails exactly when the match straddles a
+markup boundary: recorded finding `C08-partwise-matching`, witnesses in `C08_partwise_neg` / `C08_matching_neg`. -/
+theorem C08_matching_partial (t : RT) (h : Normal t = true) :
+    (∀ ps, startsWith ps t = Abs.startsWith ps (abs t)) ∧
+    (∀ ps, endsWith ps t = Abs.endsWith ps (abs t)) ∧
+    (∀ item, contains item t = Abs.contains item (abs t)) ∧
+    (∀ ps, startsWith ps t = true → Abs.startsWithFull ps (abs t) = true) ∧
+    (∀ ps, endsWith ps t = true → Abs.endsWithFull ps (abs t) = true) ∧
+    (∀ item, contains item t = true → Abs.containsFull item (abs t) = true) ∧
+    (∀ q s, Flat.startsWith1 q s = true → Flat.startsWithFull1 q s = true) ∧
+    (∀ q s, Flat.endsWith1 q s = true → Flat.endsWithFull1 q s = true) ∧
+    (∀ q s, Flat.hasWindow q s = true → Flat.hasWindowFull q s = true) := by
+  refine ⟨fun ps => startsWith_exact ps t h, fun ps => endsWith_exact ps t h, fun item => contains_exact item t h,
+    ?_, ?_, ?_, startsWithFull1_of_startsWith1, endsWithFull1_of_endsWith1, hasWindowFull_of_hasWindow⟩
+  · intro ps hs; rw [startsWith_exact ps t h] at hs; simp [Abs.startsWithFull, hs]
+  · intro ps hs; rw [endsWith_exact ps t h] at hs; simp [Abs.endsWithFull, hs]
+  · intro item hs; rw [contains_exact item t h] at hs; simp [Abs.containsFull, hs]
+
+theorem C08_matching_partial_nonvacuous :
+    Normal (build (.node .text [.node (.tag "em".toList) [.str "Long".toList], .str "cat".toList])) = true ∧
+    startsWith ["Lo".toList] (build (.node .text [.node (.tag "em".toList) [.str "Long".toList], .str "cat".toList])) = true ∧
+    Abs.startsWithFull ["Lo".toList] (abs (build (.node .text [.node (.tag "em".toList) [.str "Long".toList], .str "cat".toList]))) = true := by
+  decide +kernel
+
+/-- **The finding, on concrete witnesses**: the Python string operation on the characters finds a prefix / suffix /
+substring / separator / white-space run that straddles a markup boundary, the code (= the part-wise reading) does
+not: `Text(Tag('em','a'),'b')` starts and ends with `'ab'` and contains it; `Text('a ', Tag('em',' b'))
+.split(None, keep_empty_parts=True)` has an empty piece between the two blanks where `re.split(r'\s+')` has none. -/
+theorem C08_matching_neg :
+    startsWith ["ab".toList] (build (.node .text [.node (.tag "em".toList) [.str "a".toList], .str "b".toList])) = false ∧
+    Abs.startsWithFull ["ab".toList] (abs (build (.node .text [.node (.tag "em".toList) [.str "a".toList], .str "b".toList]))) = true ∧
+    endsWith ["ab".toList] (build (.node .text [.node (.tag "em".toList) [.str "a".toList], .str "b".toList])) = false ∧
+    Abs.endsWithFull ["ab".toList] (abs (build (.node .text [.node (.tag "em".toList) [.str "a".toList], .str "b".toList]))) = true ∧
+    contains "ab".toList (build (.node .text [.node (.tag "em".toList) [.str "a".toList], .str "b".toList])) = false ∧
+    Abs.containsFull "ab".toList (abs (build (.node .text [.node (.tag "em".toList) [.str "a".toList], .str "b".toList]))) = true ∧
+    (split .ws (build (.node .text [.str "a ".toList, .node (.tag "em".toList) [.str " b".toList]])) (some true)).map toStr
+      = ["a".toList, [], "b".toList] ∧
+    (Abs.splitG true .ws true (abs (build (.node .text [.str "a ".toList, .node (.tag "em".toList) [.str " b".toList]])))).map
+        (fun a => Flat.toStr a.atoms) = ["a".toList, [], "b".toList] ∧
+    (Abs.splitG false .ws true (abs (build (.node .text [.str "a ".toList, .node (.tag "em".toList) [.str " b".toList]])))).map
+        (fun a => Flat.toStr a.atoms) = ["a".toList, "b".toList] ∧
+    (Abs.splitG false (.lit ',' [' ']) true (abs (build (.node .text [.str "a,".toList, .node (.tag "em".toList) [.str " b".toList]])))).map
+        (fun a => Flat.toStr a.atoms) = ["a".toList, "b".toList] := by
+  decide +kernel
+
+/-- **split at the compiled pattern `textutils.delimiter_re` = `([\s\-])`** (what `abbreviate()` uses): the pieces are
+the list split of the string of pairs at every white-space character or hyphen that is not under `Protected`, each
+separator kept as a piece of its own (capturing group); empty pieces are dropped only if `keep_empty_parts=False`;
+every piece has the receiver's class and is an object; a `Symbol` and a `Protected` are never split; glued together
+the pieces of a list split spell the text again, markup included. -/
+theorem C08_split_regex (t : RT) (keep : Option Bool) :
+    (splitRe .delim t keep).map abs = Abs.splitReG true .delim (keepRe keep) (abs t) ∧
+    (∀ re, ∀ r ∈ splitRe re t keep, top r = top t) ∧
+    (Normal t = true → ∀ re, ∀ r ∈ splitRe re t keep, Normal r = true) ∧
+    (∀ s : Flat, (Flat.splitKeepGo Flat.isDelim s []).flatten = s) :=
+  ⟨abs_splitRe_delim t keep, fun re => top_splitBy _ t _, fun h re => normal_splitBy _ t h _,
+   fun s => by simpa using splitKeepGo_flatten Flat.isDelim s []⟩
+
+theorem C08_split_regex_nonvacuous :
+    (splitRe .delim (build (.node .text [.str "a b-".toList, .node (.tag "em".toList) [.str "c".toList],
+        .node .prot [.str "d e".toList]])) none).map abs
+      = [⟨.multi .text, [(.ch 'a', [])]⟩, ⟨.multi .text, [(.ch ' ', [])]⟩, ⟨.multi .text, [(.ch 'b', [])]⟩,
+         ⟨.multi .text, [(.ch '-', [])]⟩,
+         ⟨.multi .text, [(.ch 'c', [.tag "em".toList]), (.ch 'd', [.prot]), (.ch ' ', [.prot]), (.ch 'e', [.prot])]⟩] := by
+  decide +kernel
+
+/-- **abbreviate()** acts on the string of pairs as the composition of the list operations: the text is cut at the
+unprotected delimiters (kept), every piece that `isalpha()` becomes its first pair followed by a period (inside the
+outermost markup of the piece, unless that pair is a terminator), everything is glued together again.  Protected text
+is one piece with whatever surrounds it and is never abbreviated apart; the result is an object; no `IndexError`
+can escape. -/
+theorem C08_abbreviate (alpha : Char → Bool) (t : RT) (h : Normal t = true) :
+    (abbreviate alpha Gen.terminators t).map abs = Abs.abbreviate alpha Gen.terminators (abs t) ∧
+    (∀ r, abbreviate alpha Gen.terminators t = .ok r → Normal r = true) :=
+  ⟨abs_abbreviate alpha Gen.terminators C08_tables.1 t h, fun r hr => normal_abbreviate alpha Gen.terminators t r h hr⟩
+
+theorem C08_abbreviate_nonvacuous :
+    (match abbreviate uniCase.alpha Gen.terminators (build (.node .text [.str "Élan vital-".toList,
+        .node (.tag "em".toList) [.str "x2 ".toList], .node .prot [.str "B C".toList]])) with
+      | .ok r => some (toStr r)
+      | .error _ => none) = some "É. v.-x2 B C".toList ∧
+    (match abbreviate uniCase.alpha Gen.terminators (build (.node (.tag "em".toList) [.str "Jean Luc".toList])) with
+      | .ok r => some (abs r)
+      | .error _ => none)
+      = some ⟨.multi .text, [(.ch 'J', [.tag "em".toList]), (.ch '.', [.tag "em".toList]), (.ch ' ', [.tag "em".toList]),
+          (.ch 'L', [.tag "em".toList]), (.ch '.', [.tag "em".toList])]⟩ := by
+  decide +kernel
+
+/-- **Histories over all operations, for any case mapping.**  Any finite sequence of operations (`+` on either side,
+`append`, `join`, slices, indices – including the ones that raise –, `upper`, `lower`, `capfirst`, `capitalize`,
+`add_period(period)` with any period, `abbreviate()`, `split()` at white space, at a one-character separator or at
+`delimiter_re` followed by the choice of a piece), applied on top of one another to an object, yields step by step exactly
+the abstract values obtained by running the corresponding list operations on the string of pairs – with the
+interpreter's Unicode case mapping (`uniCase`) in particular, also where the text changes its length. -/
+theorem C08_history_full (cs : CaseSys) (t : RT) (ht : Normal t = true) (ops : List OpG)
+    (hops : ∀ op ∈ ops, op.OperandsNormal = true ∧ op.Covered = true) :
+    (runG cs Gen.terminators t ops).map (Except.map abs)
+      = Abs.runG cs Gen.terminators (abs t) (ops.map OpG.abs) :=
+  runG_abs cs Gen.terminators C08_tables.1 ops t ht hops
+
+/-- a non-trivial history with the Unicode mapping: `straße é` → upper (longer) → slice → add_period('!') → lower →
+capitalize → index out of range → abbreviate → a piece of the split at the delimiters -/
+theorem C08_history_full_nonvacuous :
+    ([OpG.upper, .slice (some 4) (some (-1)), .addPeriod (.str "!".toList), .lower, .capitalize, .index 9, .abbreviate,
+      .splitRePick .delim none 1].all fun op => op.OperandsNormal && op.Covered) = true ∧
+    (runG uniCase Gen.terminators (build (.node .text [.str "stra".toList, .node (.tag "em".toList) [.str "ße é".toList]]))
+      [.upper, .slice (some 4) (some (-1)), .addPeriod (.str "!".toList), .lower, .capitalize, .index 9, .abbreviate,
+       .splitRePick .delim none 1]).map
+        (fun r => match r with | .ok x => some (toStr x) | .error _ => none)
+      = [some "STRASSE É".toList, some "SSE ".toList, some "SSE !".toList, some "sse !".toList, some "Sse !".toList, none,
+         some "S. !".toList, some " ".toList] := by
+  decide +kernel
 
 end Pybtex.Props
